@@ -25,13 +25,14 @@ func init() { subcmds["hostile"] = hostileMain }
 // progress file and re-run alone.
 
 type hTarget struct {
-	id    string
-	kind  string // "typed" | "auto" | "msg"
-	rev   int
-	base  []byte
-	asts  []map[string]any
-	names []string
-	rows  int
+	id     string
+	kind   string // "typed" | "auto" | "msg"
+	rev    int
+	base   []byte
+	asts   []map[string]any
+	names  []string
+	rows   int
+	tnames []any // the type names of the valid encoding's columns, as bytes
 	// positions of the 8-byte count / offset fields in base (typed and auto targets)
 	fields []int
 	run    func(data []byte) hOutcome
@@ -150,6 +151,7 @@ func hostileTargets(depth int, rng *rand.Rand, rev int) []hTarget {
 			}
 			base := append([]byte(nil), b.Buf...)
 			asts := []map[string]any{k.AST()}
+			tnames := []any{colgen.Ints([]byte(k.Name()))}
 			// where the column payload begins: the block ends with the state prefixes and the column data
 			var cb proto.Buffer
 			if rows > 0 {
@@ -191,7 +193,7 @@ func hostileTargets(depth int, rng *rand.Rand, rev int) []hTarget {
 				out.cols = []any{vals}
 				return out
 			}
-			ts = append(ts, hTarget{id: "typed:" + k.Name(), kind: "typed", rev: rev, base: base, asts: asts, names: []string{"c"}, rows: rows, fields: fields, run: typedRun})
+			ts = append(ts, hTarget{id: "typed:" + k.Name(), kind: "typed", rev: rev, base: base, asts: asts, names: []string{"c"}, rows: rows, fields: fields, tnames: tnames, run: typedRun})
 			// the decoder accepts LowCardinality keys of every width, the library's encoder only emits the narrowest:
 			// valid encodings with 2-, 4- and 8-byte keys are derived from the encoder's output and mutated as well
 			if k.AST()["k"] == "lc" && rows > 0 && len(fields) >= 2 {
@@ -221,11 +223,11 @@ func hostileTargets(depth int, rng *rand.Rand, rev int) []hTarget {
 						wf = nil
 					}
 					ts = append(ts, hTarget{id: fmt.Sprintf("typed:%s#keys%d", k.Name(), 8<<uint(code)), kind: "typed", rev: rev, base: wide, asts: asts, names: []string{"c"}, rows: rows,
-						fields: wf, run: typedRun})
+						fields: wf, tnames: tnames, run: typedRun})
 				}
 			}
 			if ki%3 == 0 {
-				ts = append(ts, hTarget{id: "auto:" + k.Name(), kind: "auto", rev: rev, base: base, asts: asts, names: []string{"c"}, rows: rows, fields: fields,
+				ts = append(ts, hTarget{id: "auto:" + k.Name(), kind: "auto", rev: rev, base: base, asts: asts, names: []string{"c"}, rows: rows, fields: fields, tnames: tnames,
 					run: func(data []byte) hOutcome {
 						var res proto.Results
 						var blk proto.Block
@@ -264,7 +266,7 @@ func hostileTargets(depth int, rng *rand.Rand, rev int) []hTarget {
 				continue
 			}
 			base := append([]byte(nil), b.Buf[c.skip:]...)
-			ts = append(ts, hTarget{id: fmt.Sprintf("msg:%s@%d", c.kind, mrev), kind: "msg", rev: mrev, base: base, asts: []map[string]any{}, names: []string{}, run: func(data []byte) hOutcome {
+			ts = append(ts, hTarget{id: fmt.Sprintf("msg:%s@%d", c.kind, mrev), kind: "msg", rev: mrev, base: base, asts: []map[string]any{}, names: []string{}, tnames: []any{}, run: func(data []byte) hOutcome {
 				rd := proto.NewReader(bytes.NewReader(data))
 				if _, err := c.decode(rd, mrev); err != nil {
 					return hOutcome{err: err.Error()}
@@ -519,7 +521,7 @@ func hostileMain(args []string) error {
 				return
 			}
 			if *describe {
-				tw.Emit(map[string]any{"ev": "Hostile", "target": t.id, "path": t.kind, "mut": desc, "idx": idx, "rev": t.rev, "asts": t.asts, "bytes": colgen.Ints(data),
+				tw.Emit(map[string]any{"ev": "Hostile", "target": t.id, "path": t.kind, "tnames": t.tnames, "mut": desc, "idx": idx, "rev": t.rev, "asts": t.asts, "bytes": colgen.Ints(data),
 					"panic": "", "hang": false, "abort": "", "inconsistent": "", "err": "", "rows": 0, "cols": []any{}})
 				return
 			}
@@ -541,14 +543,14 @@ func hostileMain(args []string) error {
 			switch {
 			case pan != nil:
 				agg["panics"]++
-				tw.Emit(map[string]any{"ev": "Hostile", "target": t.id, "path": t.kind, "mut": desc, "idx": idx, "rev": t.rev, "asts": t.asts, "bytes": colgen.Ints(data),
+				tw.Emit(map[string]any{"ev": "Hostile", "target": t.id, "path": t.kind, "tnames": t.tnames, "mut": desc, "idx": idx, "rev": t.rev, "asts": t.asts, "bytes": colgen.Ints(data),
 					"panic": pan.Error(), "hang": false, "abort": "", "inconsistent": "", "err": "", "rows": 0, "cols": []any{}})
 				tw.Flush()
 			case oc.err != "":
 				agg["rejected"]++
 			case oc.inconsistent != "":
 				agg["inconsistent"]++
-				tw.Emit(map[string]any{"ev": "Hostile", "target": t.id, "path": t.kind, "mut": desc, "idx": idx, "rev": t.rev, "asts": t.asts, "bytes": colgen.Ints(data),
+				tw.Emit(map[string]any{"ev": "Hostile", "target": t.id, "path": t.kind, "tnames": t.tnames, "mut": desc, "idx": idx, "rev": t.rev, "asts": t.asts, "bytes": colgen.Ints(data),
 					"panic": "", "hang": false, "abort": "", "inconsistent": oc.inconsistent, "err": "", "rows": oc.rows, "cols": []any{}})
 			default:
 				agg["accepted"]++
@@ -560,14 +562,14 @@ func hostileMain(args []string) error {
 					if cols == nil {
 						cols = []any{}
 					}
-					tw.Emit(map[string]any{"ev": "Hostile", "target": t.id, "path": t.kind, "mut": desc, "idx": idx, "rev": t.rev, "asts": t.asts, "bytes": colgen.Ints(data),
+					tw.Emit(map[string]any{"ev": "Hostile", "target": t.id, "path": t.kind, "tnames": t.tnames, "mut": desc, "idx": idx, "rev": t.rev, "asts": t.asts, "bytes": colgen.Ints(data),
 						"panic": "", "hang": false, "abort": "", "inconsistent": "", "err": "", "rows": oc.rows, "cols": cols})
 				}
 			}
 		})
 		tw.Flush()
 		if *only < 0 {
-			tw.Emit(map[string]any{"ev": "HostileAgg", "target": t.id, "path": t.kind, "baseLen": len(t.base), "shard": *shard, "mutants": agg["mutants"], "rejected": agg["rejected"],
+			tw.Emit(map[string]any{"ev": "HostileAgg", "target": t.id, "path": t.kind, "tnames": t.tnames, "baseLen": len(t.base), "shard": *shard, "mutants": agg["mutants"], "rejected": agg["rejected"],
 				"accepted": agg["accepted"], "skippedWithinCap": agg["skippedWithinCap"], "panics": agg["panics"], "inconsistent": agg["inconsistent"], "maxAllocMiB": int(maxAlloc >> 20), "maxAllocAt": maxAllocDesc,
 				"firstIdx": idx - int64(agg["mutants"]) + 1, "lastIdx": idx})
 		}
